@@ -186,6 +186,14 @@ def run(ctx):
     # directory; if they stall again they are excluded and counted; many of them is itself a failure
     ctx.oblige("run:few-inconclusive-cases", len(timing_excluded) <= max(3, evals // 25),
                "%d of %d cases stalled twice: %s" % (len(timing_excluded), evals, json.dumps(timing_excluded)[:400]))
+    # the loader's DEFAULT lock timeout is exercised by exactly one case per run (every other case overrides it through the hook)
+    dcase = [(cid, r) for cid, r in real.items() if r.get("kind") == "default"]
+    if not ctx.replay:
+        ctx.oblige("run:default-lock-timeout-case-ran", len(dcase) == 1, "%d default-timeout cases" % len(dcase))
+    if dcase:
+        ctx.coverage["default_lock_timeout"] = {"elapsed_ms": dcase[0][1].get("elapsed_ms"), "bound_ms": dcase[0][1].get("bound_ms"),
+                                                "attempts": dcase[0][1].get("attempts"), "result": dcase[0][1].get("results"),
+                                                "rule": "stale lock + library absent + no TS_VERIF_LOCK_TIMEOUT_MS: a working language within the bound (protocol constant 30 s + one poll + compile)"}
     hook = mode.get("hook") == "1"
     if not hook and mode.get("patient") != "1":
         ctx.notes.append("quick tier without the hook: the real 30 s lock timeout is not sat out (callers still running after 6 s are "
